@@ -49,11 +49,12 @@ def gen():
     if not m:
         raise F.FactError("impl Iterator for TrieEntryIter not found")
     nb = _norm(F.fn_body(m.group(1), "next", REL))
-    expected = _norm("""
+    shape = """
         let mut node_pos = self.node_pos;
         let mut unit;
         for i in self.offset..self.data.len() {
             let k = self.data.get(i).unwrap();
+            %s
             node_pos ^= *k as usize;
             unit = self.get(node_pos) as usize;
             if Trie::label(unit) != *k as usize { return None; }
@@ -65,9 +66,14 @@ def gen():
                 return Some(r);
             }
         }
-        None""")
-    if nb != expected:
+        None"""
+    if nb == _norm(shape % "if *k == 0 { return None; }"):
+        nul_stops = True
+    elif nb == _norm(shape % ""):
+        nul_stops = False
+    else:
         raise F.FactError("TrieEntryIter::next no longer has the statement sequence the model mirrors")
+    out.append("(* a NUL byte of the text stops the traversal before any unit is read *)\nDefinition nul_stops : bool := %s.\n" % ("true" if nul_stops else "false"))
     out.append('Definition next_shape : string := "xor-key;read;label-ne-stop;xor-offset;leaf-yield(value(read),i+1);save(offset,node_pos)".\n')
 
     # common_prefix_iterator starts at offset(unit 0)
